@@ -861,19 +861,29 @@ impl<'a> Exec<'a> {
             self.mon.armed[n as usize] = self.mon.armed[o as usize].take();
             self.mon.n += 1;
             self.mon.give_up_allocation(o, Status::Stolen);
+            let mut moved = true;
+            let mut cloned = false;
             self.call(|| {
                 let mut h = pop_ext(o);
                 galloc::set_next_slot(w().lay[n as usize]);
+                payload::set_next_clone_id(n);
                 w().created += 1;
                 let node = Rc::make_mut(&mut h);
                 // the program relabels the value it now exclusively owns
-                let moved = node.intact(o);
+                moved = node.intact(o);
+                cloned = node.intact(n);
                 node.relabel(n);
-                assert!(moved);
                 w().addr[n as usize] = verif::box_addr(&h);
                 w().armed[n as usize] = w().armed[o as usize].take();
                 push_ext(n, h);
             });
+            if !moved {
+                self.mon.viol.push(Viol {
+                    clause: "K12",
+                    sig: if cloned { "make_mut-cloned-a-uniquely-owned-value".into() } else { "make_mut-lost-the-value".into() },
+                    detail: format!("make_mut on object {o} (one strong handle, Weak handles outstanding) must move the value into a new allocation; the handle now points at {}", if cloned { "a clone of it (the original was neither moved nor destroyed)" } else { "something else" }),
+                });
+            }
         } else {
             self.call(|| {
                 let mut h = pop_ext(o);
